@@ -1648,16 +1648,23 @@ MANIFEST = {
              "the generated Rust items the way #[derive(DdsType)] reads them (names, module nesting, member order and "
              "kinds, array sizes, keys, member ids, optional flags, extensibility, base type, qualified type name, "
              "enumerators and values, union discriminator, case labels and default) equals the structure the IDL declares; "
-             "names, nesting, order, enumerators and labels are preserved for all specifications without exception. The "
-             "four classes are refuted by witnesses and recorded as known findings: string/sequence bounds are dropped "
-             "(D34), annotations of a member with several declarators reach only the first, array dimensions after the "
-             "first are dropped, and of several #[dust_dds] attributes written on one item the derive reads only the first. "
-             "The model is tied to the code by running the real compiler on random specifications and on the repository's "
-             "own test IDL files and comparing the parsed output with the model inside Coq; the oracle is applied to the "
-             "real output. PARTIAL: pest parsing and rustc are outside the model; compilation of the generated code "
-             "against dust_dds is observed on a batch of cases per run."),
-    "note": ("Trusted: Coq kernel + vm_compute; hand model IdlModel.v; the IDL printer and the Rust-text reader of "
+             "names, nesting, enumerators and labels are preserved for all supported specifications without exception, and "
+             "for all of them the structure is preserved up to exactly what the classes present can lose. The four classes "
+             "are refuted by witnesses and recorded as known findings: string/sequence bounds are dropped (D34), annotations "
+             "of a member with several declarators reach only the first, array dimensions after the first are dropped, and "
+             "of several #[dust_dds] attributes written on one item the derive reads only the first (keys, ids, qualified "
+             "names, base types get lost). Two ties to the code on every run: (1) the real compiler is run on random "
+             "specifications and on the repository's own test IDL files, its output is parsed and compared with the model "
+             "inside Coq, and the oracle is applied to the real output; (2) the generated code of a batch of cases is "
+             "compiled against dust_dds in a scratch crate (rustc must accept it outside the recorded constructs) and the "
+             "compiled crate prints the dynamic type description of every generated struct, which is compared inside Coq "
+             "with the modelled reading of the derive macro and with the declared keys, ids, optional flags, names, "
+             "extensibility and base. PARTIAL: pest parsing and rustc are outside the model; 'compiles' is observed."),
+    "note": ("Trusted: Coq kernel + vm_compute; hand model IdlModel.v; the IDL printer/reader and the Rust-text reader of "
              "props/C41.py; harness. Axioms: none. Not covered: interfaces, named annotation parameters, #include and "
-             "#define with a value, constructs the generator answers with todo!()."),
-    "technique": "Coq proof (structural induction over the syntax tree) + differential correspondence with the real compiler, oracle evaluated in Coq; cargo check of generated code",
+             "#define with a value, constructs the generator answers with todo!(); the description-level model of the "
+             "derive macro is tied by correspondence only (no theorem). Known findings: C41-bounds-dropped, "
+             "C41-annotation-first-declarator-only, C41-array-dimensions-dropped, C41-split-attributes, "
+             "C41-id-ignored-unless-mutable, C41-generated-code-does-not-compile."),
+    "technique": "Coq proof (structural induction over the syntax tree) + differential correspondence with the real compiler, oracle evaluated in Coq; cargo check/build of generated code, printed type descriptions compared in Coq",
 }
